@@ -905,7 +905,12 @@ func TestVerif_C02(t *testing.T) {
 			continue
 		}
 		rec.Count("randomkeys.fail."+o.clause, 1)
-		mins := grid.minimalFrom(cl)
+		var mins []c02KeyClass
+		for _, mc := range grid.minimalFrom(cl) {
+			if _, ok := grid.fails[mc][o.clause]; ok { // another clause is another defect
+				mins = append(mins, mc)
+			}
+		}
 		if len(mins) == 0 {
 			sig := "unreproduced|" + cl.sig(o.clause) + "|" + j.w.cfg.spec.String() + "|" + kit.Hash64(j.sql, fmt.Sprintf("%v", j.w.data))
 			rec.Violation(sig, fmt.Sprintf("%s on %s with random data: %s (the class does not fail on the fixed key grid)", j.sql, j.w.cfg.spec, o.detail),
@@ -913,7 +918,7 @@ func TestVerif_C02(t *testing.T) {
 			continue
 		}
 		for _, mc := range mins {
-			grid.report(rec, mc)
+			grid.report(rec, mc, o.clause)
 		}
 	}
 	if rec.CounterValue("randomkeys.skipped")*10 > int64(len(keyJobs)) {
